@@ -74,10 +74,12 @@ fn recognize_http(method: &str, mut path: &str) -> Result<Proxy, anyhow::Error> 
     }
     if let Some(i) = path.find("://").map(|i| i + 3) {
         if let Some(j) = path[i..].find('/').map(|j| j + i) { path = &path[i..j] } else { path = &path[i..] }
+    } else if "CONNECT" != method {
+        bail!("unsupported http request target (not an absolute uri)");
     }
     if "CONNECT" == method {
         let h_end = path.rfind(':').ok_or_else(|| anyhow!("invalid http CONNECT uri"))?;
-        let host = path[..h_end].to_owned();
+        let host = named_host(&path[..h_end])?;
         let port = path[h_end + 1..].parse()?;
         Ok(Proxy::Https(Address::Domain(host, port)))
     } else {
@@ -99,14 +101,21 @@ fn recognize_http(method: &str, mut path: &str) -> Result<Proxy, anyhow::Error> 
             }
         } {
             let p_start = index + 1;
-            let host = path[..index].to_owned();
+            let host = named_host(&path[..index])?;
             let port = path[p_start..].parse()?;
             Ok(Proxy::Http(Address::Domain(host, port)))
         } else {
-            let host = path.to_owned();
+            let host = named_host(path)?;
             Ok(Proxy::Http(Address::Domain(host, 80)))
         }
     }
+}
+
+fn named_host(host: &str) -> Result<String, anyhow::Error> {
+    if host.is_empty() {
+        bail!("http request target names no host");
+    }
+    Ok(host.to_owned())
 }
 
 #[cfg(test)]
